@@ -17,6 +17,15 @@ CHECKS = {
  "C07": dict(cat="fault_enumeration", tech="fault injection at every interpreter poll via a poll-counting context.Context + prefix/terminal oracle against the uncancelled run",
    text="For ~730 (program, input, option) cases (1500 in thorough) covering every loop form, native iterators, input iterators, Query.RunWithContext and argument-count errors, the context is closed at the k-th ctx.Done() poll for every k up to 400 and sampled k beyond; the cancelled run must emit exactly the uncancelled run's events before its k-th poll, then ctx.Err(), then be exhausted, without a single further poll or panic. Independently every iterator is driven past exhaustion and past every error value.",
    ref="4/C07"),
+ "C01": dict(cat="exploration", tech="differential trace monitor: real Parse/Compile/Run vs an independent reference interpreter (executable model), plus CLI cross-observation",
+   text="Every generated (program, input) case is executed by the real library under an instruction budget and by the reference interpreter M (CPS AST interpreter written from the jq manual, interpreting builtin.jq from its text); output/error event lists must agree (values by canonical form, user errors by value, internal errors by class, never by wording). Sources: ~2.5k bounded-exhaustive small programs x inputs, 30k (600k) random core-grammar programs x 4 inputs incl. other number representations, the library-level corpus with pinned inputs, 12k (250k) token mutations of corpus queries; 1% also through the real cmd/gojq. M is calibrated on the pinned corpus (reproduces the pinned output of every supported case).",
+   ref="4/C01", note=TRUST + " C01 additionally trusts the reference interpreter (harness/internal/model) as a reading of the jq manual and gojq.Parse for turning text into the AST both sides consume (parser checked under C09). Programs outside the model's language are counted as unsupported and not compared."),
+ "C04": dict(cat="exploration", tech="optimisation-switch differential monitor (metamorphic: same program compiled with each rewrite disabled via verif-tag hooks) + static scan of emitted bytecode",
+   text="Each program is compiled by the real compiler by default, with each of 12 single optimisation switches off, with all off and with three groups off (17 configurations); every configuration must compile iff the default does, pass a bytecode well-formedness scan, and produce the same event list as the default on 3-5 inputs. Workload is weighted onto the rewrite preconditions: 1.7k template x one-instruction-argument programs, 44 tail/non-tail recursion forms, constant and near-constant assignment paths, 11.7k constant-branch conditionals in consuming contexts, 9k (200k) random programs with literal containers and updates, corpus and mutations. Evidence counts how many configurations actually changed the emitted code.",
+   ref="4/C04", note=TRUST + " The switches are add-only guards that route to the compiler's own generic lowering; a rewrite without a switch (none known) is covered only by C01."),
+ "C13": dict(cat="exploration", tech="metamorphic inverse-pair monitor over real library executions with harness-owned equality",
+   text="16 inverse-pair laws of the statement are evaluated through Parse/Compile/Run on values of each law's stated domain (494-value universe under every law, every second of both ends of the year 1-9999 range, day boundaries, 500k (14M) random values/seconds) and the result is compared with the untouched input by the harness' canonical form AND the specification comparator. D8 (first second of year 1 fails todate|fromdate) is listed as a known finding by exact input.",
+   ref="4/C13"),
 }
 
 checks = []
